@@ -280,7 +280,7 @@ def sess_validate(out, module, logs, wd, take, tag):
     for (pth, info), r in zip(logs, res):
         out.add_trace(r, runs=info.get("runs", 0))
         out.cov["calls_driven"] = out.cov.get("calls_driven", 0) + info.get("steps", 0)
-        drift += len([v for v in r["verdicts"] if v["class"] == "PROBE"])
+        drift += len([v for v in r["verdicts"] if v["class"] in ("PROBE", "SHAPE")])
         r["verdicts"] = [v for v in r["verdicts"] if v["class"] == "TOOL" or take(v)]
         out.verdicts(r)
     out.cov["spec_drift"] = out.cov.get("spec_drift", 0) + drift
